@@ -641,10 +641,10 @@ func run(c *fw.Ctx) error {
 		slices := 4
 		for s := 0; s < slices; s++ {
 			lo, hi := s*(hi3+1)/slices, (s+1)*(hi3+1)/slices-1
-			jobs = append(jobs, tlcJob{name: fmt.Sprintf("chain.%d", s), cfg: cfg("Spec", 3, "chain", 15, c.Seed, lo, hi, allInvs), workers: 4, native: 60})
+			jobs = append(jobs, tlcJob{name: fmt.Sprintf("chain.%d", s), cfg: cfg("Spec", 3, "chain", 15, c.Seed, lo, hi, allInvs), workers: 4, native: 40})
 		}
 		jobs = append(jobs, tlcJob{name: "fork", cfg: cfg("Spec", 3, "fork", 1, c.Seed, 0, hi3, allInvs), workers: 4, native: 30})
-		jobs = append(jobs, tlcJob{name: "sim4", cfg: cfg("SpecSim", 4, "any", 100, c.Seed, 0, 0, allInvs), sim: true, num: 1, seed: c.Seed*100 + 1, native: 10})
+		jobs = append(jobs, tlcJob{name: "sim4", cfg: cfg("SpecSim", 4, "any", 100, c.Seed, 0, 0, allInvs), sim: true, num: 1, seed: c.Seed*100 + 1, native: 12})
 	} else {
 		slices := 12
 		for s := 0; s < slices; s++ {
@@ -753,9 +753,7 @@ func run(c *fw.Ctx) error {
 				// native sample: deterministic in the seed
 				var nat, rest []*beh
 				for i, b := range bs {
-					if j.native > 0 && !c.Quick() && (i+int(c.Seed))%j.native == 0 {
-						nat = append(nat, b)
-					} else if j.native > 0 && c.Quick() && (i+int(c.Seed))%(j.native*4) == 0 {
+					if j.native > 0 && (i+int(c.Seed))%j.native == 0 {
 						nat = append(nat, b)
 					} else {
 						rest = append(rest, b)
